@@ -630,6 +630,7 @@ fn parts(ctx: &Ctx) -> Vec<PartSpec> {
         }
         v.push(PartSpec::new("e3-blocks-d4", json!({"depth": 4, "blocks": true})).budget(150.0));
         v.push(PartSpec::new("e1-record-vs-snapshot-pb2", json!({"e1": 2})).cpus("0"));
+        v.push(PartSpec::new("e1-record-vs-snapshot-impatient-waits-pb1", json!({"e1": 1, "impatient": 24})).cpus("0"));
         v.push(PartSpec::new("e1-two-registrants-pb2", json!({"e1": 2, "two": true})).cpus("0"));
         v.push(PartSpec::new("e1-two-snapshotters-pb2", json!({"e1": 2, "snaps": true})).cpus("0"));
     } else {
@@ -638,6 +639,7 @@ fn parts(ctx: &Ctx) -> Vec<PartSpec> {
         }
         v.push(PartSpec::new("e3-blocks-d6", json!({"depth": 6, "blocks": true})).budget(2400.0));
         v.push(PartSpec::new("e1-record-vs-snapshot-pb4", json!({"e1": 4})).cpus("0").budget(1500.0));
+        v.push(PartSpec::new("e1-record-vs-snapshot-impatient-waits-pb2", json!({"e1": 2, "impatient": 24})).cpus("3").budget(1500.0));
         v.push(PartSpec::new("e1-two-registrants-pb3", json!({"e1": 3, "two": true})).cpus("1").budget(1500.0));
         v.push(PartSpec::new("e1-two-snapshotters-pb3", json!({"e1": 3, "snaps": true})).cpus("2").budget(1500.0));
     }
@@ -646,6 +648,9 @@ fn parts(ctx: &Ctx) -> Vec<PartSpec> {
 
 fn run(ctx: &Ctx, spec: &PartSpec) -> PartResult {
     let mut res = PartResult::new(&spec.name, "");
+    if let Some(k) = spec.arg["impatient"].as_u64() {
+        vsched::IMPATIENT.store(k as u32, std::sync::atomic::Ordering::Relaxed);
+    }
     if spec.arg["many"].as_bool() == Some(true) {
         many_part(&mut res);
     } else if spec.arg["scopes"].as_bool() == Some(true) {
